@@ -47,7 +47,7 @@ SEQ_BASE = dict(AeadC="1", KdfC="1", ExpMenu='"few"', SweepFrom="0", SweepTo="0"
 
 SETUP_BASE = dict(KemSet="{32}", KdfSet="{1}", AeadSet="{1, 65535}", ModeSet="{0, 1, 2, 3}", Vals='"small"',
                   Perturb='{"none", "info", "psk", "pskid", "mode", "kdf", "aead", "skr", "enc", "pks", "shift"}',
-                  Impost="FALSE", ShotsOnly="FALSE", ShotDl='"tamper"', Twin="FALSE", BadPkR='"none"', Shape='"all"', SweepMax="0", Emit="FALSE", EmitWiring="FALSE", Ordered="TRUE", MaxSeals="0", MaxOpens="0", MaxExports="0", MaxShots="0",
+                  MaxSetSeq="0", Impost="FALSE", ShotsOnly="FALSE", ShotDl='"tamper"', Twin="FALSE", BadPkR='"none"', Shape='"all"', SweepMax="0", Emit="FALSE", EmitWiring="FALSE", Ordered="TRUE", MaxSeals="0", MaxOpens="0", MaxExports="0", MaxShots="0",
                   RecordHist="FALSE", HistLen="0", FormMenu='{"alloc"}', OvfFirstInOpen="TRUE", HugeSeals="FALSE")
 
 
@@ -407,6 +407,12 @@ def c02(chk, tier):
                                          Emit=True, MaxShots=2, FormMenu='{"alloc", "detached"}'),
                               exact_tags=ALL, casekey=key,
                               want=lambda last, tr: last["op"].startswith("single_shot"))
+        # the nonce layout far from 0 on contexts from REAL setups: counter jumps (hook) on both sides, then seal / open
+        jkem = rot(list(KEMS), 2)
+        setup_transitions(chk, ses, "gen_exact_jump",
+                          setup_over(KemSet="{%d}" % jkem, KdfSet=kset([rot([1, 2, 3], 0)]), AeadSet="{1, 2, 3}", ModeSet="{0}",
+                                     Vals='"leaf"', Shape='"one"', Perturb='{"none"}', Emit=True, MaxSetSeq=2, MaxSeals=1, MaxOpens=1),
+                          exact_tags=ALL, casekey=key, want=lambda last, tr: last["op"] in ("seal", "open"))
         # every length 0..N of info, psk, psk_id (one at a time), one suite: a value cut at an internal buffer size shows
         skem = rot(list(KEMS), 1)
         setup_transitions(chk, ses, "gen_exact_sweep",
